@@ -631,6 +631,36 @@ func c20Options(p *Prog, r *Report) {
 	r.Count("c20.send_interval_tests", nTests)
 	r.Floor(R, "c20.send_interval_tests", 2)
 
+	ownershipIn(p, r, "C20.15/E5", "macat", "macat/macat")
+	{
+		R := "C20.14/subscribe-before-connect"
+		r.Describe(R, "macat applies its subscriptions (the given topics, or the wildcard) before it dials or listens: a SUB socket that is connected without a subscription drops what the publisher sends first")
+		run := q.Fn(R, "macat", "App", "Run")
+		if run.OK() {
+			var subs, conns Sel
+			for _, e := range run.All() {
+				if e.Kind != "call" {
+					continue
+				}
+				if strings.HasSuffix(e.What, ".SetOption") && len(e.Args) >= 2 && strings.Contains(strings.Join(e.Args, " "), `"SUBSCRIBE"`) {
+					subs = append(subs, e)
+				}
+				if strings.HasSuffix(e.What, ".Dial") || strings.HasSuffix(e.What, ".Listen") || strings.HasSuffix(e.What, ".DialOptions") || strings.HasSuffix(e.What, ".ListenOptions") {
+					conns = append(conns, e)
+				}
+			}
+			reach := blockReach(run.fn)
+			bad := ""
+			for _, c := range conns {
+				for _, s := range subs {
+					if CanPrecede(reach, c.At(), s.At()) {
+						bad = p.InstrPos(c.At()) + " before the SetOption(OptionSubscribe) at " + p.InstrPos(s.At())
+					}
+				}
+			}
+			r.Check(len(subs) >= 1 && len(conns) >= 2 && bad == "", R, "Run/subscribe-first", run.Pos(), "every subscription is in place before the first Dial/Listen", "macat connects ("+bad+"): messages published right after the connection is established are dropped by the SUB socket and never printed")
+		}
+	}
 	{
 		R := "C20.13/main-hands-everything-to-Run"
 		r.Describe(R, "macat's main passes the whole argument list to Run, on every path, before anything can end the process: main itself interprets no argument (a word that looks like an option may be the value of --data)")
